@@ -96,6 +96,10 @@ def _gen_chain(rng, is_machine):
                                       "load_rollback"]),
                 "drift": rng.choice([0.0, 1e-9, 1e-7, 1e-6, 1e-3]),
                 "load_by": rng.choice(["path", "file"])}
+        if rng.random() < 0.25:
+            # several objects in one file (a UBM at the root, clients in groups): the object is
+            # written into, and read from, a sub-group of an open file
+            step["where"] = rng.choice(["group", "group_beside_root_object"])
         chain.append(step)
     return chain
 
@@ -241,9 +245,14 @@ def _write_legacy_stats(st, path):
         f["sumPxx"] = np.asarray(st.sum_pxx, dtype=float)
 
 
-def _file_tree(path):
+_GROUP = "client_1"
+
+
+def _file_tree(path, where=None):
     out = {}
     with h5py.File(path, "r") as f:
+        if where:
+            f = f[_GROUP]
         out["@attrs"] = {k: _norm(v) if not isinstance(v, bytes) else v.decode()
                          for k, v in f.attrs.items()}
 
@@ -297,15 +306,41 @@ def _state_digest(obj):
     return digest(d)
 
 
-def _save(obj, path, by):
+def _save(obj, path, by, where=None, decoy=None):
     before = _state_digest(obj)
-    _save_raw(obj, path, by)
+    if where:
+        with h5py.File(path, "w") as f:
+            if where == "group_beside_root_object" and decoy is not None:
+                decoy.save(f)
+            obj.save(f.create_group(_GROUP))
+    else:
+        _save_raw(obj, path, by)
     if _state_digest(obj) != before:
         raise _SaveModified()
 
 
 class _SaveModified(Exception):
     pass
+
+
+class _Handle:
+    """what the loader is given: a path, an open file, or a group of an open file"""
+
+    def __init__(self, path, by, where=None):
+        self.path, self.by, self.where, self.f = path, by, where, None
+
+    def __enter__(self):
+        if self.where:
+            self.f = h5py.File(self.path, "r")
+            return self.f[_GROUP]
+        if self.by == "path":
+            return self.path
+        self.f = h5py.File(self.path, "r")
+        return self.f
+
+    def __exit__(self, *a):
+        if self.f is not None:
+            self.f.close()
 
 
 def _save_raw(obj, path, by):
@@ -375,7 +410,15 @@ def _run_machine(case, rec, store):
     for i, st in enumerate(case["chain"]):
         path = store.slot()
         try:
-            _save(live, path, st["save_by"])
+            where = st.get("where")
+            decoy = None
+            if where == "group_beside_root_object":
+                decoy = GMMMachine(case["c"])
+                decoy.means = np.full((case["c"], case["d"]), 1.25)
+                decoy.variances = np.full((case["c"], case["d"]), 3.5)
+                decoy.variance_thresholds = 0.125
+            rec.probe("object_in_a_group_of_the_file", bool(where))
+            _save(live, path, st["save_by"], where, decoy)
         except _SaveModified:
             return Result.violation("save-modifies-the-object", {"step": i})
         except Exception as e:
@@ -384,11 +427,9 @@ def _run_machine(case, rec, store):
         _fault(rec, "F5_save_" + st["save_by"])
         try:
             how = st["reload"]
-            if how == "from_path":
-                new = GMMMachine.from_hdf5(path, ubm=prior)
-            elif how == "from_file":
-                with h5py.File(path, "r") as f:
-                    new = GMMMachine.from_hdf5(f, ubm=prior)
+            if how in ("from_path", "from_file"):
+                with _Handle(path, "path" if how == "from_path" else "file", where) as h:
+                    new = GMMMachine.from_hdf5(h, ubm=prior)
             else:
                 if how == "load_rollback":
                     # roll back to a checkpoint: the target is the saved machine itself after
@@ -421,11 +462,8 @@ def _run_machine(case, rec, store):
                         new = GMMMachine(oc)
                         new.means = np.zeros((oc, od))
                         new.variances = np.ones((oc, od))
-                if st["load_by"] == "path":
-                    new.load(path)
-                else:
-                    with h5py.File(path, "r") as f:
-                        new.load(f)
+                with _Handle(path, st["load_by"], where) as h:
+                    new.load(h)
         except Exception as e:
             return Result.violation("load-raises", {"step": i, "how": st["reload"],
                                                     "exception": repr(e)[:300]})
@@ -434,9 +472,9 @@ def _run_machine(case, rec, store):
         if v is not None:
             return v
         if first_file is None:
-            first_file = path
+            first_file = (path, where)
         else:
-            diff = _trees_equal(_file_tree(first_file), _file_tree(path))
+            diff = _trees_equal(_file_tree(*first_file), _file_tree(path, where))
             if diff is not None:
                 return Result.violation("resaved-file-differs", {"step": i, "diff": diff})
             rec.probe("resave_compared")
@@ -538,7 +576,15 @@ def _run_stats(case, rec, store):
     for i, st in enumerate(case["chain"]):
         path = store.slot()
         try:
-            _save(live, path, st["save_by"])
+            where = st.get("where")
+            decoy = None
+            if where == "group_beside_root_object":
+                decoy = GMMStats(c, d)
+                decoy.n = decoy.n + 3.0
+                decoy.sum_px = decoy.sum_px + 1.5
+                decoy.t = 11
+            rec.probe("object_in_a_group_of_the_file", bool(where))
+            _save(live, path, st["save_by"], where, decoy)
         except _SaveModified:
             return Result.violation("save-modifies-the-object", {"step": i})
         except Exception as e:
@@ -546,31 +592,23 @@ def _run_stats(case, rec, store):
         _fault(rec, "F5_save_" + st["save_by"])
         try:
             how = st["reload"]
-            if how == "from_path":
-                new = GMMStats.from_hdf5(path)
-            elif how == "from_file":
-                with h5py.File(path, "r") as f:
-                    new = GMMStats.from_hdf5(f)
+            if how in ("from_path", "from_file"):
+                with _Handle(path, "path" if how == "from_path" else "file", where) as h:
+                    new = GMMStats.from_hdf5(h)
             elif how == "load_rollback":
                 new = copy.deepcopy(live)
                 dr = st.get("drift", 0.0)
                 new.n = np.array(new.n) * (1.0 + dr)
                 new.sum_px = np.array(new.sum_px) * (1.0 + dr)
-                if st["load_by"] == "path":
-                    new.load(path)
-                else:
-                    with h5py.File(path, "r") as f:
-                        new.load(f)
+                with _Handle(path, st["load_by"], where) as h:
+                    new.load(h)
             else:
                 shp = (c, d) if how == "load_same" else tuple(case["other_shape"])
                 new = GMMStats(*shp)
                 new.n = new.n + 7.0
                 new.t = 5
-                if st["load_by"] == "path":
-                    new.load(path)
-                else:
-                    with h5py.File(path, "r") as f:
-                        new.load(f)
+                with _Handle(path, st["load_by"], where) as h:
+                    new.load(h)
         except Exception as e:
             return Result.violation("load-raises", {"step": i, "how": st["reload"],
                                                     "exception": repr(e)[:300]})
@@ -602,9 +640,9 @@ def _run_stats(case, rec, store):
             return Result.violation("reloaded-statistics-unusable",
                                     {"step": i, "exception": repr(e)[:200]})
         if first_file is None:
-            first_file = path
+            first_file = (path, where)
         else:
-            diff = _trees_equal(_file_tree(first_file), _file_tree(path))
+            diff = _trees_equal(_file_tree(*first_file), _file_tree(path, where))
             if diff is not None:
                 return Result.violation("resaved-file-differs", {"step": i, "diff": diff})
             rec.probe("resave_compared")
@@ -639,6 +677,8 @@ def shrink(case):
         yield dict(case, chain=ch[:-1])
         yield dict(case, chain=ch[1:])
     for i, st in enumerate(ch):
+        if st.get("where"):
+            yield dict(case, chain=ch[:i] + [{k: v for k, v in st.items() if k != "where"}] + ch[i + 1:])
         if st["save_by"] != "path" or st["reload"] != "from_path":
             yield dict(case, chain=ch[:i] + [dict(st, save_by="path", reload="from_path")] + ch[i + 1:])
     if case.get("legacy_at") is not None:
